@@ -1025,3 +1025,314 @@ func runBoundAgree(rc *RuleCtx) {
 		}
 	}
 }
+
+func init() {
+	register(&Rule{
+		Name:     "REGIONEXACT",
+		Doc:      "in the protobuf stream readers (proto/binary, conv/p2j), a walk over a length-delimited region — a loop `for cursor < start + L` with L decoded by ReadLength — either runs on a buffer that was cut at the region's end before the loop (`p.Buf = buf[:start+L]`, so an element that straddles the end fails inside its own read), or is followed by a test of the cursor against that same bound (`cursor != start+L` / `>`): otherwise the last element of a packed list or embedded message may run past its length prefix into the following fields and the message is silently mis-parsed where the reference decoder reports truncated data",
+		Configs:  "NP",
+		Floor:    map[string]int{"N": 4, "P": 4},
+		Controls: 1,
+		Run:      runRegionExact,
+	})
+}
+
+func runRegionExact(rc *RuleCtx) {
+	fromReadLength := func(v ssa.Value) bool {
+		seen := map[ssa.Value]bool{}
+		var walk func(x ssa.Value, d int) bool
+		walk = func(x ssa.Value, d int) bool {
+			if x == nil || seen[x] || d > 6 {
+				return false
+			}
+			seen[x] = true
+			switch y := x.(type) {
+			case *ssa.Extract:
+				if c, ok := y.Tuple.(*ssa.Call); ok && c.Call.StaticCallee() != nil && c.Call.StaticCallee().Name() == "ReadLength" && y.Index == 0 {
+					return true
+				}
+			case *ssa.Convert:
+				return walk(y.X, d+1)
+			case *ssa.BinOp:
+				return walk(y.X, d+1) || walk(y.Y, d+1)
+			case *ssa.Phi:
+				for _, e := range y.Edges {
+					if walk(e, d+1) {
+						return true
+					}
+				}
+			}
+			return false
+		}
+		return walk(v, 0)
+	}
+	isReadLoad := func(v ssa.Value) bool {
+		f, ok := loadedField(v)
+		return ok && f.name == "Read"
+	}
+	for _, fn := range rc.W.Funcs {
+		// the stream readers: in proto/generic a walk runs over the bytes of ONE node, whose extent was fixed
+		// when the node was cut out of its parent (handleChild / getByPath re-slice the buffer), so the end of
+		// the region is the end of the buffer there
+		if fn.Blocks == nil || !(pkgRel(fn) == "proto/binary" || pkgRel(fn) == "conv/p2j") {
+			continue
+		}
+		for _, lp := range naturalLoops(fn) {
+			iff, ok := lastInstr(lp.head).(*ssa.If)
+			if !ok {
+				continue
+			}
+			// the region test may be the first conjunct of `A && B`
+			k, _ := condKey(iff.Cond)
+			bo, ok := k.(*ssa.BinOp)
+			if !ok || bo.Op != token.LSS || !isReadLoad(bo.X) {
+				continue
+			}
+			bound, ok := bo.Y.(*ssa.BinOp)
+			if !ok || bound.Op != token.ADD || !(fromReadLength(bound.X) || fromReadLength(bound.Y)) {
+				continue
+			}
+			rc.Examined++
+			good, why := false, ""
+			// (a) the buffer was cut at the region end
+			for _, b := range fn.Blocks {
+				for _, ins := range b.Instrs {
+					st, ok := ins.(*ssa.Store)
+					if !ok {
+						continue
+					}
+					if _, n, ok := fieldNameOf(st.Addr); !ok || n != "Buf" {
+						continue
+					}
+					if sl, ok := st.Val.(*ssa.Slice); ok && sl.High != nil && fromReadLength(sl.High) && b.Dominates(lp.head) {
+						good, why = true, "the buffer is cut at the end of the region before the walk"
+					}
+				}
+			}
+			// (b) the cursor is compared with the same bound outside the loop header
+			for _, b := range fn.Blocks {
+				for _, ins := range b.Instrs {
+					o, ok := ins.(*ssa.BinOp)
+					if !ok || o == bo {
+						continue
+					}
+					switch o.Op {
+					case token.NEQ, token.GTR, token.EQL, token.LEQ, token.GEQ:
+					default:
+						continue
+					}
+					sameBound := func(v ssa.Value) bool {
+						if v == ssa.Value(bound) {
+							return true
+						}
+						ob, ok := v.(*ssa.BinOp)
+						return ok && ob.Op == token.ADD && ob.X == bound.X && ob.Y == bound.Y
+					}
+					if (isReadLoad(o.X) && sameBound(o.Y)) || (isReadLoad(o.Y) && sameBound(o.X)) {
+						if !lp.blocks[b] || b != lp.head {
+							good, why = true, "the cursor is compared with the region end after the walk"
+						}
+					}
+				}
+			}
+			rc.verdict(good, fn, "walk over a length-delimited region", bo.Pos(), map[bool]string{
+				true:  why,
+				false: "the loop runs while the cursor is before `start + length`, but nothing makes an element that straddles the region end fail: the buffer is not cut at the end and the cursor is never compared with the bound after the loop — the last element may run into the following fields"}[good], true)
+		}
+	}
+}
+
+func init() {
+	register(&Rule{
+		Name:     "COUNTERRESET",
+		Doc:      "a struct field that a function assigns as an absolute count in one arm and counts up inside a loop (`x.f++` per element) in another is assigned before that loop as well: a scan that increments the node's element count without resetting it first adds this scan's elements to whatever the node carried (a node obtained from GetByPath already has its count — Load then doubles Len())",
+		Configs:  "NP",
+		Floor:    map[string]int{"N": 1, "P": 1},
+		Controls: 1,
+		Run:      runCounterReset,
+	})
+}
+
+func runCounterReset(rc *RuleCtx) {
+	for _, fn := range rc.W.Funcs {
+		if fn.Blocks == nil || pkgRel(fn) == "" {
+			continue
+		}
+		loops := naturalLoops(fn)
+		if len(loops) == 0 {
+			continue
+		}
+		for _, b := range fn.Blocks {
+			for _, ins := range b.Instrs {
+				st, ok := ins.(*ssa.Store)
+				if !ok {
+					continue
+				}
+				t, n, ok := fieldNameOf(st.Addr)
+				if !ok {
+					continue
+				}
+				bo, ok := st.Val.(*ssa.BinOp)
+				if !ok || bo.Op != token.ADD {
+					continue
+				}
+				if k, isC := constInt(bo.Y); !isC || k != 1 {
+					continue
+				}
+				f := sfield{typeShort(t), n}
+				if lf, ok := loadedField(bo.X); !ok || lf != f {
+					continue
+				}
+				// innermost loop containing the increment
+				var in *natLoop
+				for _, lp := range loops {
+					if lp.blocks[b] && (in == nil || len(lp.blocks) < len(in.blocks)) {
+						in = lp
+					}
+				}
+				if in == nil {
+					continue
+				}
+				// the base object must be loop-invariant (a field of the receiver / a parameter), not a per-iteration element
+				base := st.Addr.(*ssa.FieldAddr).X
+				if _, isParam := base.(*ssa.Parameter); !isParam {
+					if fa, ok := base.(*ssa.FieldAddr); !ok {
+						continue
+					} else if _, isParam := fa.X.(*ssa.Parameter); !isParam {
+						continue
+					}
+				}
+				// the function treats the field as an absolute count elsewhere (a sibling arm assigns it);
+				// a function that only ever adds to it (SetMany: one more per inserted element) keeps a running total on purpose
+				absolute := false
+				for _, ob := range fn.Blocks {
+					for _, oi := range ob.Instrs {
+						if os, ok := oi.(*ssa.Store); ok && os != st {
+							if ot, on, ok := fieldNameOf(os.Addr); ok && (sfield{typeShort(ot), on}) == f {
+								if ob2, ok := os.Val.(*ssa.BinOp); !ok || ob2.Op != token.ADD {
+									absolute = true
+								}
+							}
+						}
+					}
+				}
+				if !absolute {
+					continue
+				}
+				rc.Examined++
+				reset := false
+				for _, ob := range fn.Blocks {
+					if in.blocks[ob] || !ob.Dominates(in.head) {
+						continue
+					}
+					for _, oi := range ob.Instrs {
+						if os, ok := oi.(*ssa.Store); ok && os != st {
+							if ot, on, ok := fieldNameOf(os.Addr); ok && (sfield{typeShort(ot), on}) == f {
+								reset = true
+							}
+						}
+					}
+				}
+				rc.verdict(reset, fn, "counter "+f.name, st.Pos(), map[bool]string{
+					true:  "the counter is assigned before the loop that counts it up",
+					false: "`" + f.name + "++` inside the loop with no assignment of " + f.name + " before it: the count of this scan is added to what the object already carried (a second Load, or a node that came with its size, doubles it)"}[reset], true)
+			}
+		}
+	}
+}
+
+func init() {
+	register(&Rule{
+		Name:     "WIREDISPATCH",
+		Doc:      "no scalar is ENCODED (a Write<Kind> / Encode<Kind> primitive of proto/binary or proto/protowire) in a branch that is selected by the value's WIRE TYPE alone (`wt == proto.VarintType`, `case proto.VarintType:`): the varint wire type covers int, uint, sint (zig-zag) and bool, which need different encoders — a map<sint32,…> key written with the plain varint encoder decodes as another key. (Skipping by wire type is fine: it does not interpret the value.)",
+		Configs:  "NP",
+		Floor:    map[string]int{"N": 1, "P": 1},
+		Controls: 1,
+		Run:      runWireDispatch,
+	})
+}
+
+func runWireDispatch(rc *RuleCtx) {
+	for _, p := range rc.W.Pkgs {
+		rel := strings.TrimPrefix(strings.TrimPrefix(p.PkgPath, modPath), "/")
+		info := p.TypesInfo
+		for _, f := range p.Syntax {
+			for _, d := range f.Decls {
+				fd, ok := d.(*ast.FuncDecl)
+				if !ok || fd.Body == nil {
+					continue
+				}
+				name := declName(rel, fd)
+				encodes := func(body ast.Node) (string, token.Pos) {
+					found, pos := "", token.NoPos
+					ast.Inspect(body, func(n ast.Node) bool {
+						ce, ok := n.(*ast.CallExpr)
+						if !ok || found != "" {
+							return found == ""
+						}
+						sel, ok := ce.Fun.(*ast.SelectorExpr)
+						if !ok {
+							return true
+						}
+						fn, _ := info.Uses[sel.Sel].(*types.Func)
+						if fn == nil || fn.Pkg() == nil || !(strings.HasSuffix(fn.Pkg().Path(), "/proto/binary") || strings.HasSuffix(fn.Pkg().Path(), "/proto/protowire")) {
+							return true
+						}
+						if strings.HasPrefix(sel.Sel.Name, "Write") || strings.HasPrefix(sel.Sel.Name, "Encode") || strings.HasPrefix(sel.Sel.Name, "Append") {
+							if _, ok := primKind(sel.Sel.Name); ok {
+								found, pos = sel.Sel.Name, ce.Pos()
+							}
+						}
+						return true
+					})
+					return found, pos
+				}
+				isWire := func(e ast.Expr) bool {
+					tv, ok := info.Types[e]
+					return ok && strings.HasSuffix(typeShort(tv.Type), "proto.WireType")
+				}
+				ast.Inspect(fd.Body, func(n ast.Node) bool {
+					switch x := n.(type) {
+					case *ast.IfStmt:
+						be, ok := ast.Unparen(x.Cond).(*ast.BinaryExpr)
+						if !ok || be.Op != token.EQL || !(isWire(be.X) && isWire(be.Y)) {
+							return true
+						}
+						rc.Examined++
+						enc, pos := encodes(x.Body)
+						good := enc == ""
+						if pos == token.NoPos {
+							pos = x.Pos()
+						}
+						rc.add(nil, name, "branch on "+types.ExprString(x.Cond), pos, map[bool]string{true: "discharged", false: "violated"}[good],
+							map[bool]string{true: "the wire-type branch does not encode a value", false: "the branch selected by `" + types.ExprString(x.Cond) + "` encodes with " + enc + ": the wire type does not say whether the value is signed, unsigned or zig-zag encoded"}[good], true)
+					case *ast.SwitchStmt:
+						if x.Tag == nil || !isWire(x.Tag) {
+							return true
+						}
+						for _, cc := range x.Body.List {
+							cl := cc.(*ast.CaseClause)
+							if len(cl.List) == 0 {
+								continue
+							}
+							rc.Examined++
+							enc, pos := "", token.NoPos
+							for _, st := range cl.Body {
+								if e, p2 := encodes(st); e != "" && enc == "" {
+									enc, pos = e, p2
+								}
+							}
+							good := enc == ""
+							if pos == token.NoPos {
+								pos = cl.Pos()
+							}
+							rc.add(nil, name, "case "+types.ExprString(cl.List[0]), pos, map[bool]string{true: "discharged", false: "violated"}[good],
+								map[bool]string{true: "the wire-type clause does not encode a value", false: "the clause selected by the wire type encodes with " + enc + ": the wire type does not say whether the value is signed, unsigned or zig-zag encoded"}[good], true)
+						}
+					}
+					return true
+				})
+			}
+		}
+	}
+}
